@@ -44,7 +44,7 @@ def _key(b, coarse):
     if coarse:
         for f in ("canResume", "iq", "redirect", "lq"):
             k.pop(f, None)
-        ident = [k, b["steps"][-1]]
+        ident = [k, b["steps"][-1], b["cfg"].get("reg", "none")]
     else:
         ident = [b["cfg"], k, b["steps"][-1]]
     return json.dumps(ident, sort_keys=True)
@@ -80,6 +80,8 @@ def select(behs, cap, seed, coarse):
     for lst in (regs, top, prio, rest):
         rnd.shuffle(lst)
     nreg, nstale = len(regs), len(top)
+    # within the registration keys: TLS required and not (yet) encrypted first
+    regs.sort(key=lambda b: not (b["key"]["tls"] == "Required" and not b["key"]["enc"]))
     if cap:
         regs = regs[:cap // 5]
         top = top[:cap // 2 - len(regs) // 2]
